@@ -214,6 +214,25 @@ func runC08(c *Ctx, kind string, seed uint64) {
 			return
 		}
 	}
+	// a batch whose proposal is stamped a moment ahead of this machine's clock (the proposer's clock runs
+	// fast): the live nodes consume it before that instant, the replays after it (see the wait below)
+	var ahead time.Time
+	for _, rd := range rounds {
+		ce := &Ceremony{W: w, N: n, T: t, Round: rd}
+		if !ce.AllIn(StIdle) {
+			continue
+		}
+		ahead = now().Add(1500 * time.Millisecond)
+		p := r.Intn(n)
+		req := requests.SigningBatchProposalStartRequest{BatchID: "stamped-ahead-" + rd[:6], ParticipantId: p, CreatedAt: ahead,
+			SigningTasks: []requests.SigningTask{{MessageID: "ahead", File: "ahead", Payload: r.Bytes(12)}}}
+		msg := world.SignMsg(w.Nodes[p], rd, EvSigningStart, mkReq(req), "")
+		if _, err := ce.RunBatch(BatchSpec{Proposer: p, Hand: &msg}, policy); err != nil {
+			c.Inconclusive("stamped-ahead batch: %v", err)
+			return
+		}
+		c.Add("batches_stamped_ahead_of_the_consumers_clock", 1)
+	}
 	if kind == "two-rounds" && len(rounds) == 2 {
 		// a participant (authenticated in round B) broadcasts "reconstructed signatures" on round B whose
 		// payload names round A's batch and messages: round A's store must not notice
@@ -229,6 +248,9 @@ func runC08(c *Ctx, kind string, seed uint64) {
 	}
 	w.AfterStep = nil
 	c.Add("same_prefix_agreement_checks", agreeChecks)
+	if d := time.Until(ahead); !ahead.IsZero() && d > 0 {
+		time.Sleep(d + 100*time.Millisecond) // delay injection only: the replays start after the stamped instant
+	}
 	judgeReplays(c, kind, seed, w, rounds, r)
 }
 
